@@ -593,10 +593,21 @@ func (e *Env) Reopen(o txfile.Options) bool {
 		e.Dead = true
 		return false
 	}
+	e.SyncTxid()
 	if e.ReadCheck {
 		e.VerifyRead("after reopen")
 	}
 	return true
+}
+
+// SyncTxid adopts the header txid after an open (open-time maintenance
+// transactions advance it without changing the logical state).
+func (e *Env) SyncTxid() {
+	s := e.F.VerifSnapshot()
+	if t := s.Txid[s.MetaActive]; t != e.LastTxid {
+		e.LastTxid = t
+		e.ByTxid[t] = e.M.clone()
+	}
 }
 
 // VerifyRead checks, in a read transaction, that root and every live page
